@@ -1078,4 +1078,28 @@ def generated_models():
     pk = w.decision("Pick", t, inputs=[a, c], knowledge=[bk], type_ref="tOut")
     w.decision("Use Pick", W.lit("(Pick.P) + 1"), decisions=[pk], type_ref="number")
     out.append((w.name, w.xml()))
+    out.append(("g_dmndi", DMNDI_MODEL))
     return out
+
+
+# a small model with a complete diagram interchange section (styles with colours and alignments, sizes, shapes with bounds,
+# labels, a decision-service divider line, edges with way points): none of the shipped examples carries colours
+DMNDI_MODEL = """<?xml version="1.0" encoding="UTF-8"?>
+<definitions xmlns="https://www.omg.org/spec/DMN/20191111/MODEL/" xmlns:dmndi="https://www.omg.org/spec/DMN/20191111/DMNDI/" xmlns:dc="http://www.omg.org/spec/DMN/20180521/DC/" xmlns:di="http://www.omg.org/spec/DMN/20180521/DI/" namespace="https://verif/g_dmndi" name="g_dmndi" id="_g_dmndi">
+<inputData name="Age" id="_in_age"><variable name="Age" typeRef="number"/></inputData>
+<decision name="Adult" id="_dec_adult"><variable name="Adult" typeRef="boolean"/><informationRequirement id="_ir1"><requiredInput href="#_in_age"/></informationRequirement><literalExpression><text>Age >= 18</text></literalExpression></decision>
+<decisionService name="Svc" id="_svc"><variable name="Svc"/><outputDecision href="#_dec_adult"/><inputData href="#_in_age"/></decisionService>
+<dmndi:DMNDI>
+<dmndi:DMNStyle id="_style_shared" fontFamily="Arial" fontSize="10" fontItalic="true" fontBold="false" fontUnderline="true" fontStrikeThrough="false" labelHorizontalAlignment="center" labelVerticalAlignment="start">
+<dmndi:fillColor red="255" green="128" blue="0"/><dmndi:strokeColor red="0" green="0" blue="0"/><dmndi:fontColor red="10" green="20" blue="30"/><dmndi:FillColor red="255" green="128" blue="0"/>
+</dmndi:DMNStyle>
+<dmndi:DMNDiagram id="_diagram" name="Page 1" resolution="300" sharedStyle="_style_shared">
+<dmndi:Size width="190.5" height="240"/>
+<di:localStyle><dmndi:DMNStyle fontSize="12" labelHorizontalAlignment="end"><dmndi:fillColor red="1" green="2" blue="3"/></dmndi:DMNStyle></di:localStyle>
+<dmndi:DMNShape id="_shape_in" dmnElementRef="_in_age" isCollapsed="false" sharedStyle="_style_shared"><dc:Bounds x="20" y="150" width="150" height="60"/><dmndi:DMNLabel text="Age" sharedStyle="_style_shared"><dc:Bounds x="25" y="155" width="100" height="20"/></dmndi:DMNLabel></dmndi:DMNShape>
+<dmndi:DMNShape id="_shape_dec" dmnElementRef="_dec_adult"><dc:Bounds x="20" y="20" width="150" height="60"/><dmndi:localStyle fontBold="true" labelVerticalAlignment="center"><dmndi:strokeColor red="200" green="100" blue="50"/><dmndi:fontColor red="0" green="0" blue="255"/></dmndi:localStyle></dmndi:DMNShape>
+<dmndi:DMNShape id="_shape_svc" dmnElementRef="_svc" isCollapsed="true"><dc:Bounds x="0" y="0" width="190" height="240"/><dmndi:DMNDecisionServiceDividerLine id="_divider"><di:waypoint x="0" y="120"/><di:waypoint x="190" y="120"/></dmndi:DMNDecisionServiceDividerLine></dmndi:DMNShape>
+<dmndi:DMNEdge id="_edge" dmnElementRef="_ir1" sharedStyle="_style_shared"><di:waypoint x="95" y="150"/><di:waypoint x="95" y="80"/><dmndi:DMNLabel text="requires"/></dmndi:DMNEdge>
+</dmndi:DMNDiagram>
+</dmndi:DMNDI>
+</definitions>"""
